@@ -366,7 +366,7 @@ def callee_set(facts, b, depth=3, _seen=None):
 
 GEN_NOISE = {"world::entity::Entity::id", "world::entity::Entity::gen", "std::cmp::PartialEq::eq", "std::cmp::PartialEq::ne",
              "world::entity::Generation::id", "world::entity::ZeroableGeneration::id"}      # pure accessors
-STYLE_PREFIXES = ("std::option::Option::<T>::", "std::result::Result::<T, E>::", "std::ops::Try::", "std::ops::FromResidual::", "std::ops::Deref::",
+STYLE_PREFIXES = ("std::option::Option::<T>::", "std::option::Option::<&T>::", "std::option::Option::<&mut T>::", "std::result::Result::<T, E>::", "std::ops::Try::", "std::ops::FromResidual::", "std::ops::Deref::",
                   "std::convert::", "std::clone::Clone::", "std::iter::Iterator::", "core::slice::<impl [T]>::get", "std::ops::Index::")
 
 
